@@ -97,6 +97,8 @@ CallsOf(st, op) ==
     [] op = "add_face_v" -> {KL(op, <<t[1], t[2], t[3]>>) : t \in
                               {t \in LiveV(st) \X LiveV(st) \X LiveV(st) :
                                   t[1] < t[2] /\ t[1] < t[3] /\ t[2] # t[3]}}
+                            \cup {KL(op, <<t[1], t[2]>>) : t \in          \* 2-gons
+                              {t \in LiveV(st) \X LiveV(st) : t[1] < t[2]}}
     [] op = "add_face" -> {KLF(op, l, TRUE) : l \in SeqsUpTo(LiveHE(st), MaxList)}
                           \cup {KLF(op, l, FALSE) : l \in {l \in SeqsUpTo(LiveHE(st), MaxList) : ClosedLoop(st, l)}}
     [] op = "add_cell" -> {KLF(op, l, TRUE) : l \in SeqsUpTo(FreeHF(st), MaxList)}
